@@ -199,7 +199,7 @@ func runC17(c *Ctx) {
 			}
 			xc, xi := callOf(stripIntConv(w.unixSeconds(f.X, trueRet)))
 			yc, _ := callOf(f.Y)
-			if xc != nil && (xc == atoi || w.key(xc) == w.key(atoi)) && xi == 0 && yc != nil && yc.Call.StaticCallee() != nil && yc.Call.StaticCallee().String() == "(time.Time).Unix" {
+			if xc != nil && atoi != nil && (xc == atoi || w.key(xc) == w.key(atoi)) && xi == 0 && yc != nil && yc.Call.StaticCallee() != nil && yc.Call.StaticCallee().String() == "(time.Time).Unix" {
 				if nc, _ := callOf(yc.Call.Args[0]); nc != nil && nc.Call.StaticCallee() == timeNow {
 					okCmp = true
 				}
